@@ -144,6 +144,14 @@ def gen(rng, tier="quick", prop="C06"):
             if rng.chance(0.4):
                 mv["inplace"] = True  # the caller rewrites the array it registered with add_transform
             ops.append(mv)
+        elif r < 0.92 and rob["geoms"]:
+            # re-mount a collision geometry on its link (add_transform of the geometry frame relative to the link)
+            f = rng.choice(sorted(rob["geoms"]))
+            link = f.split(":", 1)[1].rsplit("/", 1)[0]
+            T = np.eye(4)
+            T[:3, :3] = rng.rot()
+            T[:3, 3] = [rng.gauss(0, 0.3 * rob["scale"]) for _ in range(3)]
+            ops.append({"op": "remount", "b": b, "frame": f, "link": link, "pose": (T + 0.0).tolist()})
         elif "base-move" in faults:
             ops.append({"op": "base", "b": b, "pose": rng.pose(rng.choice([0.0, 1.0, 10.0]))})
         elif rob["joints"]:
@@ -297,7 +305,7 @@ class Model:
             if op["frame"] not in e["free"]:
                 return False
             e["pending"] = True
-        elif k in ("joint", "base"):
+        elif k in ("joint", "base", "remount"):
             e["pending"] = True
         elif k == "update":
             e["pending"] = False
@@ -541,8 +549,10 @@ def stats(plan, jr):
                 inc("probe.free_collider_attached_to_link")
             if op.get("wl_into") or len(op.get("wl", [])) > 1:
                 inc("probe.asymmetric_seeded_whitelist")
-        elif kind in ("joint", "move", "base"):
+        elif kind in ("joint", "move", "base", "remount"):
             changed = True
+            if kind == "remount":
+                inc("fault.order.geometry_remounted")
             if kind == "base":
                 inc("fault.base-move")
         elif kind == "update":
